@@ -480,7 +480,7 @@ def main():
     for r in results:
         if r.get('error'):
             errors.append(r['error'])
-        ids = [f.cid for f in r['findings'] if f.kind == 'PROPFAIL'][:50000] + [f.cid for f in r['findings'] if f.kind != 'PROPFAIL'][:2000]
+        ids = [f.cid for f in r['findings'] if f.kind == 'PROPFAIL'][:3000000] + [f.cid for f in r['findings'] if f.kind != 'PROPFAIL'][:2000]
         cl = case_lines(r['trace'], ids) if ids else {}
         for f in r['findings']:
             f.case_line = cl.get(f.cid)
